@@ -48,6 +48,7 @@ class Taint:
         self.fx = fx
         self.cg = fx.callgraph()
         self.ty_pred = ty_pred or ty_is_wire
+        self.raw_bytes_roots = roots is None
         self.skip_prefixes = skip_prefixes
         explicit = roots
         roots = list(roots or [])
@@ -91,6 +92,9 @@ class Taint:
         for i in range(1, b.argc + 1):
             ty = b.locals[i] if i < len(b.locals) else ''
             if self.ty_pred(ty):
+                s.add(i)
+            # the raw bytes handed to a root of the receive path (the datagram itself, a submessage buffer) are what the sender wrote
+            elif self.raw_bytes_roots and b.key in self.roots and any(x in (ty or '') for x in ('bytes::Bytes', 'bytes::BytesMut', '[u8]')):
                 s.add(i)
         return s
 
